@@ -225,11 +225,12 @@ def execute(h: Dict[str, Any]) -> Dict[str, Any]:
     probes = {k: 0 for k in ["stale_owned_placed", "stale_realname_placed", "foreign_placed", "empty_pkg_dir_placed", "committed_copy_placed",
                              "cleanup_removed_stale", "stale_overwritten", "fault_fired", "fault_not_reached", "faulted_run_failed",
                              "faulted_run_left_partial", "other_plugin_tree", "merge_files", "different_model_before", "listing_permuted",
-                             "test_dir_used", "uuid_checked", "ascii_locale"]}
+                             "test_dir_used", "uuid_checked", "ascii_locale", "clock_shifted"]}
     faults_fired: Dict[str, int] = {}
     evlog: List[Any] = []
     try:
         files_M = w.write_models("M", build_model(h["model"]))
+        files_ref = w.write_models("elsewhere/ref-copy", build_model(h["model"]))  # same bytes, another path
         if len(files_M) > 1:
             probes["merge_files"] += 1
         # ---- reference: clean room -----------------------------------------------------------------
@@ -239,7 +240,7 @@ def execute(h: Dict[str, Any]) -> Dict[str, Any]:
         if h.get("test_dir") and pristine_main.exists():
             (ref_td / "src").mkdir(parents=True)
             shutil.copy(pristine_main, ref_td / "src" / "main.rs")
-        ref = gw.run_generator(w, plugin, str(ref_out), str(ref_td), files_M, gw.env_for(0, "", random.Random(0), default=True))
+        ref = gw.run_generator(w, plugin, str(ref_out), str(ref_td), files_ref, gw.env_for(0, "", random.Random(0), default=True))
         if ref["rc"] != 0:
             # the model generator is meant to stay inside what every plugin accepts; if the tree under
             # test cannot generate this model at all that is not a C16 observation
@@ -323,6 +324,8 @@ def execute(h: Dict[str, Any]) -> Dict[str, Any]:
                 probes["listing_permuted"] += 1
             if env.get("locale") == "C":
                 probes["ascii_locale"] += 1
+            if env.get("clock_offset"):
+                probes["clock_shifted"] += 1
             evlog.append(["FINAL", rj["rc"], len(rj["events"])])
             if rj["rc"] != 0:
                 last = rj["stderr_tail"].strip().splitlines()[-1][:300] if rj["stderr_tail"].strip() else "no stderr"
@@ -365,7 +368,7 @@ def execute(h: Dict[str, Any]) -> Dict[str, Any]:
         w.destroy()
     return {"run_seed": h["run_seed"], "violations": viol, "harness": None, "probes": probes, "faults_fired": faults_fired,
             "invocations": inv, "digest": core.digest([h["plugin"], h["model"], evlog]), "plugin": plugin, "evlog": evlog,
-            "nontrivial": bool(h["ops"]) or any(e.get("hashseed") != "0" or e.get("ls_seed") is not None or e.get("locale") for e in h["finals"])}
+            "nontrivial": bool(h["ops"]) or any(e.get("hashseed") != "0" or e.get("ls_seed") is not None or e.get("locale") or e.get("clock_offset") for e in h["finals"])}
 
 
 def gm_leak(ref_main: Optional[bytes], td: pathlib.Path, ids: set) -> bool:
@@ -622,7 +625,7 @@ def main(argv: List[str]) -> int:
         "skipped_reference_failed": skipped,
         "determinism": {"rerun_other_worker_count": det_checked, "mismatches": det_mismatch},
         "real_vs_stub": {"real": ["generator CLI, model loader, all four plugins (current working tree)", "CPython, pathlib, json, file system (tmpfs)"],
-                         "simulated": ["PYTHONHASHSEED", "uuid.uuid4 stream", "default text encoding (ASCII C locale vs UTF-8)", "os.scandir/os.listdir order", "process kill / ENOSPC / EIO at write-open, during write (torn), at unlink, at mkdir",
+                         "simulated": ["PYTHONHASHSEED", "uuid.uuid4 stream", "default text encoding (ASCII C locale vs UTF-8)", "wall clock (time.time/localtime/strftime, datetime.now/today shifted by days or years between runs)", "location of the model files and of the output directory", "os.scandir/os.listdir order", "process kill / ENOSPC / EIO at write-open, during write (torn), at unlink, at mkdir",
                                        "initial directory contents"], "stub": []},
         "violation_signatures": sorted(first_fail),
     }
